@@ -43,6 +43,9 @@ type Region struct {
 	cloud  *Cloud
 
 	FailGenerate, FailEncrypt, FailDecrypt bool
+	// WrongPlaintext makes Decrypt succeed with a different data key (a stale or damaged regional KEK):
+	// the KMS call works but the envelope cannot be opened with what it returned.
+	WrongPlaintext bool
 	// Handed holds every Plaintext slice handed out in a response (same backing arrays).
 	Handed [][]byte
 }
@@ -73,7 +76,7 @@ func (c *Cloud) Reset() {
 	defer c.mu.Unlock()
 	c.Log, c.Requests = nil, nil
 	for _, r := range c.Regions {
-		r.FailGenerate, r.FailEncrypt, r.FailDecrypt = false, false, false
+		r.FailGenerate, r.FailEncrypt, r.FailDecrypt, r.WrongPlaintext = false, false, false, false
 		r.Handed = nil
 	}
 }
@@ -144,6 +147,10 @@ func (r *Region) decrypt(blob []byte) ([]byte, error) {
 	if err != nil {
 		r.cloud.log(r.Name, "decrypt", false)
 		return nil, err
+	}
+	if r.WrongPlaintext {
+		pt = make([]byte, 32)
+		rand.Read(pt)
 	}
 	r.Handed = append(r.Handed, pt)
 	r.cloud.log(r.Name, "decrypt", true)
